@@ -34,6 +34,25 @@ def _ev_key(e):
     return [e.op, e.get("kind"), e.get("trial_id"), e.get("level"), e.get("decision"), cfg]
 
 
+def _close(a, b, rel=1e-9):
+    """Same event up to round-off in the float entries of the configuration."""
+    if [a.op, a.get("kind"), a.get("trial_id"), a.get("level"), a.get("decision")] != [b.op, b.get("kind"), b.get("trial_id"), b.get("level"), b.get("decision")]:
+        return False
+    ca, cb = a.get("config"), b.get("config")
+    if ca is None or cb is None or set(ca) != set(cb):
+        return ca is None and cb is None
+    for k in ca:
+        if k == "elapsed_time":
+            continue
+        va, vb = ca[k], cb[k]
+        if isinstance(va, float) and isinstance(vb, float):
+            if abs(va - vb) > rel * max(abs(va), abs(vb)):
+                return False
+        elif va != vb or type(va) is not type(vb):
+            return False
+    return True
+
+
 def _reset_block_names():
     """Block-name counters of the GP code are process-global: start them afresh, as in a new process."""
     from syne_tune.optimizer.schedulers.searchers.bayesopt.gpautograd import gluon
@@ -218,6 +237,11 @@ def run(t, fam, kind):
             raise Violation(f"restored-twin-diverges:{kind}:{fam}", f"{spec.describe()} cut={cut}: {v.kind}: {str(v.detail)[:300]}")
         except Exception as e:
             raise Violation(f"restored-raises:{kind}:{fam}:{type(e).__name__}", f"{spec.describe()} cut={cut} step {step}: {type(e).__name__}: {e}")
+        if evB is not None and _ev_key(evA) != _ev_key(evB) and gp and _close(evA, evB):
+            # a snapshot stores the model parameters through their encoding (exp / log): when fitting is skipped after the
+            # restore, suggestions agree to round-off only; the twins may drift apart from here, so the comparison ends
+            labels.add("gp-equal-up-to-roundoff")
+            break
         if evB is None or _ev_key(evA) != _ev_key(evB):
             who = ("restored", "original") if restored is A else ("original", "restored")
             raise Violation(
